@@ -52,7 +52,12 @@ impl Hist {
                 let mut cur = 0usize;
                 let _ = l.seek(qs, qe, &mut cur).count();
                 let _ = l.iter().count();
-                if !l.intervals.iter().any(|x| x.start >= x.stop) { let _ = l.cov(); }
+                if !l.intervals.iter().any(|x| x.start >= x.stop) {
+                    let _ = l.cov();
+                    let _ = l.union_and_intersect(&l);
+                    let mut d = l.depth();
+                    if l.intervals.iter().all(|x| x.stop - x.start < 5_000) { let _ = d.next(); }
+                }
             }
         }
         l
@@ -118,7 +123,7 @@ pub fn shrink_hist(h: &Hist) -> Vec<Hist> {
 }
 
 pub fn put_ivs<'a>(w: &mut W, it: impl Iterator<Item = &'a Iv>) {
-    let v: Vec<&Iv> = it.collect();
+    let v: Vec<&Iv> = drain_mode(it, next_mode());
     w.n(v.len());
     for i in v { w.n(i.start).n(i.stop).n(i.val); }
 }
